@@ -198,7 +198,7 @@ def check_finish(ctx, P):
                 ie = fn.local_expr(s[1][1][-1][1]) if s[1][1][-1][0] == "i" else None
                 if ie is not None and pred.canon(ie, fn) == "arg1.leftover":
                     facts = pred.facts_at(fn, b)
-                    ok1 = pred.implies(facts, pred.A("le", -1, **{"arg1.leftover": -1}))
+                    ok1 = pred.implies(facts, pred.A("le", -1, **{"arg1.leftover": -1})) or pred.A("ne", 0, **{"arg1.leftover": 1}) in facts
     ctx.check(ok1, "padding", "finish:marker", "buffer[leftover] = 1 when a partial block is pending", "Poly1305::finish does not write the 0x01 marker at buffer[leftover]", where=fn.where(), key="padding:finish:marker")
     lps = [l for l in rules.iter_loops(fn) if any(s[0] == "range" for s in l["sources"])]
     ok2 = len(lps) == 1 and lps[0]["sources"] == [("range", ("lin{+1*arg1.leftover+1}", "16"))]
